@@ -37,6 +37,7 @@
 //                no DataNode::GetSubscribers() table and no cached table of the pool mentions K, no client mirror still holds a K node
 //   as-if-never  (at a departure, at every cut, and for every unprivileged session a PR_COMMAND_KICK removed) tree, subscriber tables, parameters of the others and every client's mirror equal those of a baseline run of the
 //                same history without session K (unprivileged K only)
+//   label q (ordered children as modelled by Refl/IsoOrd.v): k j code T{...; a node with an ordered index ends in [I0,I1,]} E{...}
 //   k ORACLE FAIL <what> op#j ...
 #include "refl_common.h"
 #include "regex/PathMatcher.h"
@@ -812,6 +813,9 @@ static void RunCase(long k, const std::string & line)
    // label 'i': the stream with INSERTORDEREDDATA / REORDERDATA, which the Coq model does not cover: state lines are not printed
    // (nothing to compare them with), only the verdicts of the oracles and a final marker
    const bool quietCase = (bar > 0)&&(line[0] == 'i');
+   // label 'q': ordered children as modelled by Refl/IsoOrd.v (INSERTORDEREDDATA with one key, REORDERDATA): tree (with the
+   // ordered index of every node) and sessions are printed and compared; the INDEXUPDATED notifications are not modelled
+   const bool treeOnly = (bar > 0)&&(line[0] == 'q');
    std::vector<std::string> raw = Split(line.substr(bar+1), ';');
    std::vector<std::string> ops;
    for (size_t i=0; i<raw.size(); i++) if (!raw[i].empty()) ops.push_back(raw[i]);
@@ -932,7 +936,12 @@ static void RunCase(long k, const std::string & line)
       if (isCmd) for (size_t x=0; x<main->hosts.size(); x++) aliveBefore[x] = main->Alive((int)x);
       bool valid = false;
       const std::string st = main->Exec(ops[j], &valid, NULL);
-      if (!quietCase) printf("%ld %d %s\n", k, (int)j, st.c_str());
+      if (treeOnly)
+      {
+         const size_t tp = st.find(" T{");
+         printf("%ld %d %s%s%s\n", k, (int)j, code.c_str(), valid ? "" : "!", (tp == std::string::npos) ? "" : st.substr(tp).c_str());
+      }
+      else if (!quietCase) printf("%ld %d %s\n", k, (int)j, st.c_str());
       // sessions that a privileged kick of this op removed: as if they had never been there
       if (isCmd) for (size_t x=0; x<aliveBefore.size(); x++) if ((aliveBefore[x])&&((int)x != K)&&(!main->Alive((int)x))&&(!IsPrivHost(main->hosts[x])))
       {
